@@ -51,6 +51,9 @@ type Step struct {
 	Text int    `json:"text"` // index into texts
 	Alt  int    `json:"alt"`  // for text+wronghash: whose hash is sent
 	Get  bool   `json:"get"`  // use the GET transport
+	// Form: the JSON body is posted as application/x-www-form-urlencoded (the UrlEncodedForm
+	// transport decodes JSON bodies too; a hash-only request spells "query":"")
+	FormPost bool `json:"form_post,omitempty"`
 }
 
 var forms = []string{"text", "text+hash", "text+wronghash", "hash", "malformed", "version", "upperhash", "blank+hash"}
@@ -99,6 +102,10 @@ func (st Step) request() hsrv.Req {
 		r.Query, r.HasQuery = " \n", true
 		r.Extensions = ext(hashOf(t), 1)
 	}
+	if st.FormPost && !st.Get {
+		r.HasQuery = true
+		r.Headers = map[string]string{"Content-Type": "application/x-www-form-urlencoded"}
+	}
 	return r
 }
 
@@ -130,7 +137,7 @@ func check(c Case) *vfrun.Failure {
 	}
 	var recovers atomic.Int64
 	cache := hsrv.NewRecCache[string](c.Bound)
-	h := hsrv.New(s, hsrv.Config{Transports: []string{"get", "post"}, Recovers: &recovers})
+	h := hsrv.New(s, hsrv.Config{Transports: []string{"get", "post", "urlencoded"}, Recovers: &recovers})
 	h.Use(extension.AutomaticPersistedQuery{Cache: cache})
 	if c.QueryCache {
 		h.SetQueryCache(lru.New[*ast.QueryDocument](100))
@@ -316,6 +323,7 @@ func genHistory(t *rapid.T) Case {
 	for i := 0; i < n; i++ {
 		st := alpha[rapid.IntRange(0, len(alpha)-1).Draw(t, "step")]
 		st.Get = rapid.IntRange(0, 3).Draw(t, "get") == 0
+		st.FormPost = !st.Get && rapid.IntRange(0, 4).Draw(t, "formpost") == 0
 		c.Steps = append(c.Steps, st)
 	}
 	return c
